@@ -104,7 +104,16 @@ def generate(seed, tier):
         if top_lo and r < 0.14:
             # the list gets a new set of element objects (same length: constraints by index stay valid)
             f = orng.choice(top_lo)
-            if orng.random() < 0.5:
+            others_ = [c["name"] for c in prog["classes"] if c["name"] not in (f["c"], top)
+                       and f["c"] not in [b_["name"] for b_ in P.mro(c["name"])]]
+            r2 = orng.random()
+            if r2 < 0.25 and others_:
+                # a rejected append (unrelated class) that the caller catches, then a legal one
+                ops.append({"op": "lo_append_bad", "p": p, "path": [f["n"]], "bad": orng.choice(others_)})
+                ops.append({"op": "lo_append", "p": p, "path": [f["n"]], "cls": f["c"]})
+            elif r2 < 0.35:
+                ops.append({"op": "lo_append", "p": p, "path": [f["n"]], "cls": f["c"]})
+            elif orng.random() < 0.5:
                 ops.append({"op": "lo_replace", "p": p, "path": [f["n"]], "cls": f["c"], "n": f["sz"]})
             else:
                 # a single element is replaced by index assignment
@@ -172,7 +181,21 @@ def execute(rec):
         out = w.apply(op)
         if kind == "assign" and op.get("nrsub"):
             stats["nonrand_sub_assigns"] += 1
-        if kind in ("lo_replace", "lo_setitem"):
+        if kind == "lo_append_bad":
+            ba = w.last_bad_append
+            stats["rejected_appends"] = stats.get("rejected_appends", 0) + (1 if ba["rejected"] else 0)
+            if ba["rejected"] and ba["before"] != ba["after"]:
+                # index k must keep naming the same element object for the user and for the model
+                viol.append({"inv": "C08.named_field", "cls": "C08.named_field/rejected_append_changed_list",
+                             "detail": {"op": oi, "len_before": ba["len_before"], "len_after": ba["len_after"]}})
+                break
+        if kind == "lo_append" and out["st"] == "ok":
+            la = w.last_append
+            if la["len_after"] != la["len_before"] + 1 or not la["last_is_new"]:
+                viol.append({"inv": "C08.named_field", "cls": "C08.named_field/append_not_at_end",
+                             "detail": {"op": oi, "append": la}})
+                break
+        if kind in ("lo_replace", "lo_setitem", "lo_append"):
             stats["list_replacements"] = stats.get("list_replacements", 0) + 1
         if kind not in ("randomize", "rw"):
             obs.append((oi, kind, out["st"]))
